@@ -125,6 +125,14 @@ func c06In(pfs []netip.Prefix, a netip.Addr) (bool, netip.Prefix) {
 // c06Dialed is the address net.Dial would connect to for a parsed literal.
 func c06Dialed(a netip.Addr) netip.Addr { return a.WithZone("").Unmap() }
 
+// c06SameTarget: same address; the two unspecified addresses count as the same target because package
+// net itself adds 0.0.0.0 to a resolution whose only result is "::" (golang.org/issue/18806) and both
+// mean "this host" to Dial.
+func c06SameTarget(a, b netip.Addr) bool {
+	a, b = c06Dialed(a), c06Dialed(b)
+	return a == b || a.IsUnspecified() && b.IsUnspecified()
+}
+
 // forbidden reports why policy forbids connecting to a ("" = permitted).
 func (p *c06Policy) forbidden(a netip.Addr) string {
 	a = c06Dialed(a)
@@ -146,8 +154,10 @@ func (p *c06Policy) forbidden(a netip.Addr) string {
 	return ""
 }
 
-// ambiguous4in6: for a v4-mapped literal, does the verdict depend on whether one looks at the
-// mapped 128-bit form or at the IPv4 address?  (Only then is acceptance left open.)
+// ambiguous4in6: for a v4-mapped literal, does the verdict depend on whether the IPv6 prefixes of the
+// policy are applied to the mapped 128-bit form (e.g. "::/0" covers ::ffff:a.b.c.d) or not at all
+// (the connection is an IPv4 connection)?  Only then is acceptance left open; a returned address is
+// always judged by what is dialed.
 func (p *c06Policy) ambiguous4in6(a netip.Addr) bool {
 	a = a.WithZone("")
 	if !a.Is4In6() {
@@ -155,9 +165,7 @@ func (p *c06Policy) ambiguous4in6(a netip.Addr) bool {
 	}
 	rawB, _ := c06In(p.block, a)
 	rawA, _ := c06In(p.allow, a)
-	unB, _ := c06In(p.block, a.Unmap())
-	unA, _ := c06In(p.allow, a.Unmap())
-	return rawB != unB || rawA != unA
+	return rawB || rawA
 }
 
 func (p *c06Policy) domainMatch(host string) string {
@@ -368,6 +376,7 @@ func c06Judge(rec *kit.Rec, pol *c06Policy, hosts map[string][]netip.Addr, o c06
 		for k, v := range extra {
 			d[k] = v
 		}
+		rec.Count("violations_by_sig["+sig+"]", 1)
 		rec.Violation(sig, msg, d)
 	}
 
@@ -422,17 +431,17 @@ func c06Judge(rec *kit.Rec, pol *c06Policy, hosts map[string][]netip.Addr, o c06
 		switch sx.PortClass {
 		case "valid":
 			if ap.Port() != sx.PortVal {
-				viol("admit:port-changed", "the returned port differs from the supplied one", map[string]interface{}{"supplied": sx.PortVal, "returned": ap.Port()})
+				viol("admit:port-changed", "the returned port differs from the supplied one", map[string]interface{}{"supplied_port": sx.PortVal, "returned_port": ap.Port()})
 			}
 		case "oversized", "negative":
-			viol("admit:port-not-16-bit:"+sx.PortClass, "a covert whose port is a number outside 0..65535 was admitted", map[string]interface{}{"supplied": c06Show(sx.Port), "returned": ap.Port()})
+			viol("admit:port-not-16-bit:"+sx.PortClass, "a covert whose port is a number outside 0..65535 was admitted", map[string]interface{}{"supplied_port": c06Show(sx.Port), "returned_port": ap.Port()})
 		}
 	}
 	// the address that was checked is the address that is dialed
 	switch {
 	case sx.SplitOK && sx.IsLit:
-		if c06Dialed(sx.Lit) != ip {
-			viol("admit:address-differs-from-supplied-literal", "the returned address is not the literal the client supplied", map[string]interface{}{"supplied": sx.Lit.String(), "returned": ip.String()})
+		if !c06SameTarget(sx.Lit, ip) {
+			viol("admit:address-differs-from-supplied-literal", "the returned address is not the literal the client supplied", map[string]interface{}{"supplied_ip": sx.Lit.String(), "returned_ip": ip.String()})
 		}
 	case sx.SplitOK && sx.Class == "numeric-nonliteral":
 		// inet_aton-style spellings (leading zeros, short forms): parsers legitimately disagree on
@@ -440,19 +449,19 @@ func c06Judge(rec *kit.Rec, pol *c06Policy, hosts map[string][]netip.Addr, o c06
 	default:
 		ok := false
 		for _, h := range o.Handed {
-			if c06Dialed(h) == ip {
+			if c06SameTarget(h, ip) {
 				ok = true
 			}
 		}
 		if sx.SplitOK {
 			for _, h := range hosts[c06Key(sx.Host)] {
-				if c06Dialed(h) == ip {
+				if c06SameTarget(h, ip) {
 					ok = true
 				}
 			}
 		}
 		if !ok {
-			viol("admit:address-not-from-resolution", "the returned address is neither a supplied literal nor an answer the resolver gave for the supplied name during this admission", map[string]interface{}{"returned": ip.String()})
+			viol("admit:address-not-from-resolution", "the returned address is neither a supplied literal nor an answer the resolver gave for the supplied name during this admission", map[string]interface{}{"returned_ip": ip.String()})
 		}
 	}
 	// accepted unchanged
@@ -1010,10 +1019,41 @@ func (w *c06Worker) evalOne(conf *RegConfig, pol *c06Policy, in c06Input) {
 		w.rec.Distinct("nontrivial", in.S, pol.ID)
 		w.rec.Count("nontrivial_evaluations", 1)
 	}
-	if w.rec.WantSample() && (in.Name != "" && out != "" || sx.Class == "v4-mapped" && expect == "must-reject") {
-		w.rec.Sample(map[string]interface{}{"covert": in.S, "policy": pol.desc(), "returned": out, "expectation": expect, "class": sx.Class,
+	// a few written-out cases, one per interesting kind
+	key := ""
+	switch {
+	case in.Name != "" && out != "" && o.NA > 0:
+		key = "name-accepted"
+	case sx.Class == "v4-mapped" && expect == "must-reject" && pol.ID != "fixed:shipped":
+		key = "v4-mapped-must-reject"
+	case sx.Class == "v6" && expect == "must-accept" && len(pol.BlockText) > 0:
+		key = "v6-must-accept"
+	case sx.Class == "v4" && expect == "must-reject" && len(pol.AllowText) > 0:
+		key = "v4-outside-allowlist"
+	case sx.Class == "name" && expect == "must-reject" && sx.PortClass == "valid" && pol.domainMatch(sx.Host) != "":
+		key = "name-pattern-reject"
+	case sx.Class == "v6-zone" && out != "":
+		key = "zone-accepted"
+	}
+	if key != "" && c06WantSample(key) {
+		w.rec.Sample(map[string]interface{}{"kind": key, "covert": in.S, "policy": pol.desc(), "returned": out, "expectation": expect, "class": sx.Class,
 			"resolver": map[string]interface{}{"A": o.NA, "AAAA": o.NAAAA, "handed_out": fmt.Sprint(o.Handed)}})
 	}
+}
+
+var (
+	c06SampleMu   sync.Mutex
+	c06SampleSeen = map[string]bool{}
+)
+
+func c06WantSample(key string) bool {
+	c06SampleMu.Lock()
+	defer c06SampleMu.Unlock()
+	if c06SampleSeen[key] {
+		return false
+	}
+	c06SampleSeen[key] = true
+	return true
 }
 
 func TestVerifC06Decision(t *testing.T) {
